@@ -220,7 +220,7 @@ def eval_cases(files):
             errs.append((f, "cannot parse coqc output: " + o[-1000:]))
             continue
         body = m.group(1)
-        for t in re.finditer(r"\(\s*(\d+),\s*(\d+),\s*(\d+)\s*\)", body):
+        for t in re.finditer(r"\(\s*(\d+)(?:%N)?,\s*(\d+)(?:%N)?,\s*(\d+)(?:%N)?\s*\)", body):
             res.append((f, int(t.group(1)), int(t.group(2)), int(t.group(3))))
         if body.strip() not in ("[]", "nil") and not re.search(r"\(\s*\d+", body):
             errs.append((f, "unexpected R: " + body[:500]))
